@@ -98,6 +98,18 @@ def run(ctx):
         if kind == 1: cfg |= (rng.randrange(2) << 12) | (rng.randrange(2) << 16) | (1 << 20)
         sc = '%s%d;U%s;%s%d;U%s;R%d' % (rng.choice('FB'), k1, b_, rng.choice('FB'), k2, c_, n - k1 - k2)
         lines.append('flush %d %d %d %s %s %s' % (kind, cfg, rng.randrange(1 << 20), a_, sc, d.hex())); meta.append((kind, a_, sc, d))
+    # highly repetitive data (long matches crossing the flush points) through the binary-tree and hash-chain match finders with
+    # many sync flushes: what the match finder inserted or skipped near a flush point must not corrupt later matches
+    for i in range(40 if ctx.quick() else 800):
+        n = rng.choice([2000, 6000, 14000]); d = xzgen.gen_runs(rng, n)
+        if rng.random() < 0.5: d = (d[:rng.randrange(50, 400)] * (n // 50))[:n]
+        mf = rng.choice(['bt4', 'bt4', 'bt3', 'bt2', 'hc4']); fs = 'lzma2:dict=%s,mf=%s,mode=%s,nice=%d' % (rng.choice(['4KiB', '64KiB']), mf, rng.choice(['normal', 'fast']), rng.choice([8, 32, 64, 273]))
+        steps = []; left = n
+        while left > 0 and len(steps) < 40:
+            k = min(left, rng.choice([1, 3, 17, 100, 273, 500, rng.randrange(1, 1500)])); left -= k; steps.append('%s%d' % (rng.choice('SSSR'), k))
+        steps.append('R%d' % left)
+        kind = rng.choice([3, 3, 4])
+        lines.append('flush %d %d %d %s %s %s' % (kind, rng.choice([0, 1]) << 8, rng.randrange(1 << 20), fs, ';'.join(steps), d.hex())); meta.append((kind, fs, ';'.join(steps), d))
     # corpus: back-to-back sync flushes with little new input on binary-tree match finders, flush as first call, flush without input
     for mf in ('bt2', 'bt3', 'bt4', 'hc4'):
         d = (b'abcdefgh12345678' * 40)[:500] + xzgen.gen_data(rng, 100)
